@@ -9,7 +9,62 @@ NOTES = ("Every check re-extracts the functions under contract from /repo's work
          "exit 0 = every obligation discharged; exit 1 = a contract obligation refuted (VIOLATION line); exit 2 = undecided (lost anchor, "
          "unsupported construct, solver limit) and never an alarm.")
 NOT_APPLICABLE = {}
+KANI_TB = "Trusted: Kani/CBMC, the hand-written shim environment (shims/common.rs, shims/seq.rs: symbolic store with declared keys, typed accessors, 2-byte addresses / 1-byte asset ids), cnidarium delta semantics, borsh/key injectivity."
 CHECKS = {
+    "C01": dict(
+        category="proof",
+        technique="Kani loop-free harnesses (full-domain symbolic store + u128 amounts) on the extracted increase/decrease_balance, fee, pay_fee, add_fee_to_block_fees, Transfer/BridgeLock/BridgeUnlock execute",
+        text="Each ledger-moving function is verified for all amounts and all initial states of the keys it touches: exact debit/credit in mathematical integers (no wrap, no saturation), "
+             "conservation per call including the alias case, write frame (no other key changes), fee == base + multiplier*size exactly, fee debited from the signer only and credited to the block-fee map by the same amount.",
+        note=KANI_TB + " Not under contract: App::end_block fee routing loop, ICS-20 mint/burn (C18), BridgeTransfer, per-action FeeHandler impls, the lifting from per-call to per-block conservation (argued in DESIGN, not mechanised).",
+    ),
+    "C02": dict(
+        category="proof",
+        technique="Kani loop-free harnesses on run_mutable_checks+execute of Transfer, BridgeLock, BridgeUnlock, SudoAddressChange, IbcSudoChange, IbcRelayerChange, BridgeSudoChange against a symbolic store",
+        text="For each action under contract: execute == Ok implies the signer equals the authority read from the pre-state of that very call (signer itself and not a bridge account; current withdrawer; current sudo / ibc sudo / bridge sudo), "
+             "and only the action's own key family is written (frame assertion over all other keys).",
+        note=KANI_TB + " Not under contract: FeeChange, FeeAssetChange, ValidatorUpdate (see C14), CurrencyPairsChange, MarketsChange, InitBridgeAccount, IbcRelay, Ics20Withdrawal, RecoverIbcClient, transaction signature verification (ed25519).",
+    ),
+    "C03": dict(
+        category="proof",
+        technique="Kani harnesses on the extracted CheckedTransaction::execute (nonce prefix loop-free, action loop unrolled to 3) and App::execute_transaction with a logging StateDelta stand-in",
+        text="A transaction takes effect only if its nonce equals the signer's stored nonce, which is then raised by exactly one (u32::MAX refused); a wrong nonce is refused before any write or action; actions run in order with their own index and stop at the first failure; "
+             "execute_transaction runs in its own delta which is applied exactly when execution returned Ok and dropped otherwise.",
+        note=KANI_TB + " The action loop is bounded to 3 actions (labelled bounded). At-most-once over the whole history follows from nonce equality + increment by induction (DESIGN §6 C03), not mechanised.",
+    ),
+    "C04": dict(
+        category="proof",
+        technique="Kani loop-free harnesses on the extracted BridgeLock execute/record_deposit and BridgeUnlock run_mutable_checks/execute/record_withdrawal_event against a symbolic store with a deposit log",
+        text="BridgeLock: Ok implies exactly one deposit (the action's) is cached together with an equal credit of the named bridge account in the same call, Err implies no deposit and no deposit event. "
+             "BridgeUnlock: Ok implies the event id was unused in the pre-state and is recorded afterwards under (bridge address, id); a refused withdrawal consumes no id.",
+        note=KANI_TB + " Not under contract yet: BridgeTransfer, Ics20Withdrawal event-id use, ICS-20 receive deposits (known candidate F6), construction of the Deposit in CheckedBridgeLockImpl::new, publication of cached deposits into the block.",
+    ),
+    "C06": dict(
+        category="proof",
+        technique="Verus contracts on the extracted BlockSizeConstraints methods (representation invariant current <= max) + induction lemma over a sequence of additions",
+        text="has_space(s) <=> current + s <= max, checked_add(s) is Ok <=> has_space(s) with an exact update and an untouched state on Err, for all values; hence a block assembled under these guards stays within both limits and the same additions replayed by ProcessProposal cannot fail.",
+        note="Trusted: Verus/Z3, GeneratedCommitments::total_size as an opaque constant, R6 rewrites of ensure!/eyre macros. Not under contract: App::proposal_checks_and_tx_execution (prepare/process agreement), commitment comparison, action-group ordering, typed data-item parsing.",
+    ),
+    "C08": dict(
+        category="proof",
+        technique="Kani in place on the whole astria-merkle crate (function contract on complete_parent, full-domain harnesses on the index arithmetic, sha2 replaced by a structural hash) + Verus on the extracted verification walk with the Kani-proved contracts imported + Verus soundness lemma under H-inj",
+        text="Index arithmetic proved against independent bit-level specifications for every i < n <= usize::MAX/2; decoding accepts exactly the proofs inside that domain and never panics; the verification walk terminates without panic for every decodable proof and equals the RFC 6962 fold; "
+             "verify is true only if the path length equals the leaf depth and the fold equals the root; under injectivity of the hash a proof verifies for one leaf hash and one path only. RFC-6962 shape of roots and completeness of constructed proofs: bounded (every tree of up to 3/6 leaves).",
+        note="Trusted: Kani/CBMC, Verus/Z3, SHA-256 collision resistance (H-inj), the sha2 structural shim, the textual identity of the contracts imported from Kani into Verus. Bounded stand-ins are labelled in the evidence (structure harnesses, audit_path_len value for tree_size <= 65535 in the quick tier).",
+    ),
+    "C09": dict(
+        category="proof",
+        technique="Verus postcondition on the extracted quorum threshold function (all u64 pairs), Kani harness on the extracted BlobVerifier::verify_metadata decision with an arbitrary cache outcome, bounded Kani harness on ensure_commit_has_quorum with logged signature checks",
+        text="The threshold function returns true iff 3*committed > 2*total in exact arithmetic; verify_metadata returns Some only for metadata whose chain id and block hash equal those of the quorum-checked commit at its own height and drops nothing that matches; "
+             "the tally accepts only if distinct validators with logged successful signature checks over this commit's canonical vote hold > 2/3 (bounded to 2 validators x 2 signatures).",
+        note="Trusted: Verus/Z3, Kani/CBMC, ed25519 as an opaque predicate, tendermint/moka stand-ins. Not under contract: RPC fetching, reconstruct/convert (Merkle binding of rollup data is C07/C08).",
+    ),
+    "C15": dict(
+        category="proof",
+        technique="Verus contracts on the extracted price_feed::utils::median and Price arithmetic (sort specified as sorted permutation)",
+        text="For every list of i128 prices of any length: median never panics, returns None exactly for the empty list, and the returned value lies between the minimum and maximum reported price.",
+        note="Trusted: Verus/Z3, slice::sort_unstable specified as a sorted permutation, specs for Option::copied / div_euclid / rem_euclid. Not under contract yet: validate_vote_extensions, validate_extended_commit_against_last_commit, aggregate_oracle_votes grouping.",
+    ),
     "C16": dict(
         category="proof",
         technique="Verus contracts (requires/ensures + representation invariant) on the extracted BundleFactory/SizedBundle functions; induction lemma over the contracts for push/pop histories",
